@@ -1222,3 +1222,24 @@ where
     writer.write_all(b"\n")?;
     Ok(())
 }
+
+#[cfg(feature = "verif_hooks")]
+impl<R: io::Read, P> Reader<R, P> {
+    /// Read-only rendering of the complete reader state (verification hook).
+    pub fn verif_snapshot(&self) -> String {
+        format!(
+            "{:?}|{:?}|{:?}|sp={}|cap={}|{:?}",
+            self.state,
+            self.buf_pos,
+            self.position,
+            self.search_pos,
+            self.buf_reader.capacity(),
+            self.buf_reader.buffer()
+        )
+    }
+
+    /// Current capacity of the internal buffer (verification hook).
+    pub fn verif_capacity(&self) -> usize {
+        self.buf_reader.capacity()
+    }
+}
